@@ -315,7 +315,19 @@ func TestC02(t *testing.T) {
 					extra = append(extra, m[16:], m[:16]) // proper suffix / prefix of a member
 				}
 			}
+			if sharded && len(names) >= 3 && (len(names)+d.Fanout)%3 == 0 {
+				// the node has been used a little; then its owner points the link system at another
+				// store holding the same blocks and shuts the old one: the node goes on working
+				for _, nm := range names[:3] {
+					c.Guard("LookupByString", func() { node.LookupByString(nm) })
+				}
+				st2 := st.Clone()
+				ls.StorageReadOpener = st2.OpenRead
+				st.Closed = true
+				c.Count("directories_on_retargeted_link_system", 1)
+			}
 			checkDirAsMap(c, "C02", node, model, extra, pads, 3000)
+			st.Closed = false
 			c.Sig(fmt.Sprintf("%s|f%d|sharded=%v|depth%d|%s|%s", d.Builder, d.Fanout, sharded, depth, d.Family, sizeClass(len(names))), len(names) >= 2)
 			c.Sample(map[string]any{"root": root.String(), "entries": len(names), "sharded": sharded, "hamt_depth": depth, "blocks": st.Len()})
 		})
